@@ -42,7 +42,7 @@ struct OpRec {
 
 enum class MarkKind { run, cancel_client, disconnect_init, disconnect_done, destroy, recreate, heal, stall, clock_jump,
                       op_cancel, teardown_begin, teardown_end, suffix_end };
-struct Mark { MarkKind kind; uint64_t seq; ns_t t; int op = -1; int64_t arg = 0; };
+struct Mark { MarkKind kind; uint64_t seq; ns_t t; int op = -1; int64_t arg = 0; int svc_gen = 0; int client_gen = 0; };
 
 struct LogRec {
     enum K { resolve, tcp_connect, connack, disconnect, auth_step } k;
@@ -64,6 +64,7 @@ struct Sim : ClientObserver {
     sim::Network net;
     bk::Broker broker;
     sim::ResolverModel resolver;
+    SignalPool signals;                          // outlive every operation of the run
     std::unique_ptr<IClient> client;
     int client_gen = 0, svc_gen = 0;
     bool running = false;                        // async_run outstanding on the current service
@@ -73,6 +74,7 @@ struct Sim : ClientObserver {
     std::vector<Mark> marks;
     std::vector<LogRec> logs;
     int cur_init_op = -1;
+    int last_run_op = -1;
 
     // pending fault arms
     std::deque<sim::ConnectOutcome> connect_script;
